@@ -140,6 +140,10 @@ class Source:
                     k = match_close(self.text, self.code, k)
                 elif ch == '{':
                     e = match_close(self.text, self.code, k)
+                    if re.match(r'\s*(?:pub(?:\([^)]*\))?\s+)?(?:const|static)\b', self.text[s:k]) and '=' in self.text[s:k]:
+                        # `const X: T = T { .. };` - the braces are an initialiser, the item ends at the `;`
+                        k = e + 1
+                        continue
                     return s, e + 1
                 elif ch == ';':
                     return s, k + 1
